@@ -174,7 +174,11 @@ ToRender(n, cf) ==
                [] nm = "tr" -> << [kind |-> "TableRow", sty |-> sty, c |-> SelectSeq(cs, LAMBDA x : x.kind = "TableCell")] >>
                [] nm \in {"th", "td"} ->
                     << [kind |-> "TableCell", sty |-> sty, c |-> cs,
-                        colspan |-> IF HasAttr(n, "colspan") THEN ParseInt(n.a.colspan.c, FALSE, 1) ELSE 1] >>
+                        \* (clamped to 1000 as in HTML; attribute values beyond TLC's integers count as 1000)
+                        colspan |-> IF ~HasAttr(n, "colspan") THEN 1
+                                    ELSE IF Len(n.a.colspan.c) > 9 /\ Len(n.a.colspan.c) <= 19
+                                            /\ \A i \in 1..Len(n.a.colspan.c) : n.a.colspan.c[i][1] \in 48..57 THEN 1000
+                                    ELSE Min2(ParseInt(n.a.colspan.c, FALSE, 1), 1000)] >>
                [] nm = "blockquote" -> NE(Node("BlockQuote", sty, cs))
                [] nm = "ul" -> NE(Node("Ul", sty, cs))
                [] nm = "ol" -> NE(Node("Ol", sty, SelectSeq(cs, LAMBDA x : x.kind = "ListItem"))
